@@ -1,4 +1,16 @@
-// further commands are added here as properties need them
-fn dispatch_extra(_cmd: &str, _args: &[&str], _out: &mut Vec<String>) -> bool {
-    false
+// further commands, one module per property so that they can be developed independently
+macro_rules! ext_mod { ($($m:ident => $f:literal),*) => { $( #[path = $f] mod $m; )* } }
+ext_mod!(ext_c01 => "ext_c01.rs", ext_c02 => "ext_c02.rs", ext_c03 => "ext_c03.rs", ext_c04 => "ext_c04.rs",
+         ext_c05 => "ext_c05.rs", ext_c06 => "ext_c06.rs", ext_c07 => "ext_c07.rs", ext_c08 => "ext_c08.rs",
+         ext_c09 => "ext_c09.rs", ext_c10 => "ext_c10.rs", ext_c12 => "ext_c12.rs", ext_c13 => "ext_c13.rs",
+         ext_c14 => "ext_c14.rs", ext_c15 => "ext_c15.rs", ext_c16 => "ext_c16.rs", ext_c17 => "ext_c17.rs",
+         ext_c18 => "ext_c18.rs", ext_c19 => "ext_c19.rs");
+
+fn dispatch_extra(cmd: &str, args: &[&str], out: &mut Vec<String>) -> bool {
+    ext_c01::dispatch(cmd, args, out) || ext_c02::dispatch(cmd, args, out) || ext_c03::dispatch(cmd, args, out)
+        || ext_c04::dispatch(cmd, args, out) || ext_c05::dispatch(cmd, args, out) || ext_c06::dispatch(cmd, args, out)
+        || ext_c07::dispatch(cmd, args, out) || ext_c08::dispatch(cmd, args, out) || ext_c09::dispatch(cmd, args, out)
+        || ext_c10::dispatch(cmd, args, out) || ext_c12::dispatch(cmd, args, out) || ext_c13::dispatch(cmd, args, out)
+        || ext_c14::dispatch(cmd, args, out) || ext_c15::dispatch(cmd, args, out) || ext_c16::dispatch(cmd, args, out)
+        || ext_c17::dispatch(cmd, args, out) || ext_c18::dispatch(cmd, args, out) || ext_c19::dispatch(cmd, args, out)
 }
